@@ -32,11 +32,13 @@ abbrev SRes := Sonic.Spec.WsAsync.Res
 /-- encoded size of a client frame with `len` payload bytes (header, extended length, mask) -/
 def frameSize (len : Nat) : Nat := 2 + (if len ≤ 125 then 0 else if len ≤ 65535 then 2 else 8) + 4 + len
 
+def opOf (n : Nat) : InOp :=
+  if n = 0 then .cont else if n = 1 then .text else if n = 2 then .binary else if n = 8 then .close
+  else if n = 9 then .ping else if n = 10 then .pong else .reserved
+
 /-- what `handleFrame` / `asyncNextMessage` look at in a frame of the peer -/
 def absFrame (g : CFrame) : InFrame :=
-  let o : InOp := match g.op with
-    | 0 => .cont | 1 => .text | 2 => .binary | 8 => .close | 9 => .ping | 10 => .pong | _ => .reserved
-  { op := o, fin := g.fin, len := g.payload.length, viol := g.rsv != 0 || g.masked,
+  { op := opOf g.op, fin := g.fin, len := g.payload.length, viol := g.rsv != 0 || g.masked,
     closeOk := g.payload.length ≥ 2 && replyCode g.payload == closeCodeOf g.payload }
 
 def stOf : WsState → StreamState
